@@ -41,7 +41,7 @@ def diff(a, b):
     return removed, created, changed
 
 
-def build_tree(files, rng):
+def build_tree(files, rng, archive_extra=()):
     root = tempfile.mkdtemp(prefix="verif_c11_")
     pel = os.path.join(root, "logs")
     os.makedirs(os.path.join(pel, "archive"))
@@ -55,6 +55,10 @@ def build_tree(files, rng):
             f.write(files[-1][1])
         if rng.random() < 0.5:
             os.symlink(os.path.join(pel, files[0][0]), os.path.join(pel, "link_to_file"))
+    for name, data in archive_extra:
+        # a log that exists below the top level only (an archived copy): no option may reach it
+        with open(os.path.join(pel, "archive", name), "wb") as f:
+            f.write(data)
     if rng.random() < 0.5:
         os.symlink(os.path.join(pel, "archive"), os.path.join(pel, "link_to_dir"))
     os.makedirs(os.path.join(root, "out"))
@@ -94,8 +98,13 @@ def run(run, model, proof):
                 if extra not in used:
                     used.add(extra)
                     files.append((extra, b"{}" if extra.endswith("json") else bytes(rng.randrange(256) for _ in range(20)), dict(kind="junk")))
+        arch_only = rng.randrange(1 << 32)
+        while any("%08X" % arch_only in nm for nm, _, _ in files):
+            arch_only = rng.randrange(1 << 32)
+        if rng.random() < 0.25:
+            e = arch_only                       # the id is carried by an archived file only
         espell = rng.choice(["%08X", "0x%08x", "%08x"]) % e
-        root, pel = build_tree(files, rng)
+        root, pel = build_tree(files, rng, [("old_%08X.pel" % arch_only, dirgen.set_ids(files[0][1], eid=arch_only) if files and files[0][2]["kind"] == "pel" else b"archived")])
         try:
             excl = os.path.join(root, "ex.txt")
             open(excl, "w").write("BD8D\n")
